@@ -21,9 +21,9 @@ func init() {
 
 func (p *c19) NumCases(tier string) int {
 	if tier == "thorough" {
-		return 30000
+		return 100000
 	}
-	return 1500
+	return 8000
 }
 
 func (p *c19) RunCase(ctx *runner.Ctx) runner.CaseResult {
